@@ -434,7 +434,7 @@ class Traversal:
             ap = self.access_path(recv, env)
             vty = self.visitor_type_of(vis) if vis is not None else "?"
             recv_ty = core_type(hir.peel(recv).get("ty") or "")
-            effects.append({"kind": kind, "ap": ap, "vty": vty, "node": n, "recv_ty": recv_ty})
+            effects.append({"kind": kind, "ap": ap, "vty": vty, "node": n, "recv_ty": recv_ty, "in_fn": self.fn.def_path})
             return self._seq(cur, [Path(effects=effects)])
         # 2. closures passed to known higher-order functions
         closures = [a for a in args if hir.peel(a).get("k") == "Closure"]
